@@ -20,7 +20,7 @@ Proof.
   assert (E5 : (c =? 13) = false) by (apply Z.eqb_neq; lia).
   assert (E6 : (c =? 11) = false) by (apply Z.eqb_neq; lia).
   rewrite E1, E2, E3, E4, E5, E6. repeat split; try lia.
-  apply andb_true_iff. split; apply Z.leb_le; lia.
+  all: try (apply andb_true_iff; split; apply Z.leb_le; lia).
 Qed.
 
 Lemma chars_digitc : forall ds, Forall digit ds -> Forall digitc (chars_of ds).
@@ -73,7 +73,7 @@ Proof. intros cs H. eapply Forall_impl; [|exact H]. intros c Hc. apply (digitc_p
 Definition canon (neg : bool) (ip fp : list Z) : list Z :=
   (if neg then [MINUS] else []) ++ chars_of ip ++ (match fp with [] => [] | _ => POINT :: chars_of fp end).
 
-Lemma parse_canon : forall w p s neg ip fp,
+Lemma parse_canon : forall w p s (neg : bool) ip fp,
   0 <= s -> Forall digit ip -> Forall digit fp -> ip <> [] -> length fp = Z.to_nat s ->
   let A := dv 0 (ip ++ fp) in
   let v := if neg then - A else A in
@@ -136,7 +136,7 @@ Proof.
   - rewrite digits_of_small by lia. cbn. lia.
   - destruct (digits_of_spec A ltac:(lia)) as (Hne & Hd & Hv & Hh).
     destruct (digits_of A) as [|d r]; [congruence|].
-    inversion Hd as [|? ? D1 D2]; subst. specialize (Hh ltac:(lia)). cbn in Hh.
+    pose proof (Forall_inv Hd) as D1. pose proof (Forall_inv_tail Hd) as D2. specialize (Hh ltac:(lia)). cbn in Hh.
     rewrite dv_cons, dv_linear in Hv. pose proof (dv_ge r 0 ltac:(lia) D2) as G.
     assert (Hpow : 10 ^ Z.of_nat (length r) <= A).
     { pose proof (pow10_pos (Z.of_nat (length r)) ltac:(lia)). nia. }
@@ -168,7 +168,7 @@ Proof.
   set (sign := if v <? 0 then [MINUS] else []).
   destruct (Z.eqb_spec s 0) as [->|Hs0].
   - (* scale 0 *)
-    exists ds, []. unfold canon. fold sign. rewrite !app_nil_r. repeat split; try assumption; try reflexivity.
+    exists ds, []. unfold canon. fold sign. rewrite !app_nil_r. repeat split; try assumption; try reflexivity; try (apply Forall_nil).
   - destruct (Z.ltb_spec s 0); [lia|].
     destruct (Z.gtb_spec (Z.of_nat (length ds)) s) as [Hgt|Hle].
     + (* the point falls inside the digits *)
